@@ -28,19 +28,19 @@ import (
 )
 
 type Clause struct {
-	Kind    string // requires ensures invariant decreases atcall atreturn
-	Props   []string
-	Label   string
-	Expr    *Ex
-	Exprs   []*Ex // decreases tuple
-	Src     string
-	Loop    int
-	Pat     string
-	When    *Ex
-	Ord     int
-	File    string
-	Line    int
-	Trusted bool
+	Kind     string // requires ensures invariant decreases atcall atreturn
+	Props    []string
+	Label    string
+	Expr     *Ex
+	Exprs    []*Ex // decreases tuple
+	Src      string
+	Loop     int
+	Pat      string
+	When     *Ex
+	Ord      int
+	File     string
+	Line     int
+	Trusted  bool
 	Optional bool // at-call? : the clause may match no call site (e.g. it forbids a call)
 }
 
